@@ -865,7 +865,12 @@ def rating_confinement(ctx, rule, injective=True, parts=("readers", "unscaled", 
             if y[3] in ("u8", "i8", "u16", "i16", "u32", "i32"):
                 narrow = y[3]
             y = y[2]
-        if p and p[2] == ["rating"] and narrow and "width" in parts:
+        fl = _float_cast_in(e)
+        if p and p[2] == ["rating"] and fl and ("width" in parts or "unscaled" in parts):
+            ctx.fail(rule, key, fb.where(), "score_rating_up routes the rating through `%s`: distinct ratings above 2^24 (f32) / 2^53 (f64) "
+                     "get the same score, so their order falls back to insertion order" % fl,
+                     {"witness": "ratings 16777216 and 16777217 on otherwise equal hits: the order depends on which was added first"})
+        elif p and p[2] == ["rating"] and narrow and "width" in parts:
             ctx.fail(rule, key, fb.where(), "score_rating_up narrows the rating to `%s`: ratings that differ by a multiple of 2^%s tie or "
                      "change order, and the empty-query pre-selection (which compares the full-width rating) disagrees with the final order"
                      % (narrow, narrow[1:]), {"witness": "ratings 3_000_000_000 and 20 with limit 1 and the empty query"})
@@ -1196,6 +1201,18 @@ def component_formulas(ctx, rule):
                      {"witness": "'u x' no longer outranks 'x u' for the query 'u'"})
 
 
+def _float_cast_in(e):
+    """an integer value routed through a floating-point type (`x as f32 as isize`): no longer injective above 2^24 / 2^53"""
+    found = None
+    for y in S.walk(e):
+        if isinstance(y, tuple) and y and y[0] == "cast" and (str(y[1]) in ("IntToFloat", "FloatToInt", "FloatToFloat") or
+                                                             str(y[3]) in ("f32", "f64")):
+            if str(y[3]) in ("f32", "f64"):
+                return str(y[3])
+            found = found or "a float"
+    return found
+
+
 def rating_monotone(ctx, rule):
     """C08 needs: for ratings in [0, 2^31) a higher rating gives a strictly higher component.  Accepted shapes of
     score_rating_up: the rating itself (cast), or min(rating, C) with C >= 2^31 - 1."""
@@ -1209,6 +1226,10 @@ def rating_monotone(ctx, rule):
     key = "rating-monotone"
     ok = False
     p = U.field_path(x)
+    if _float_cast_in(e):
+        ctx.fail(rule, key, fb.where(), "score_rating_up routes the rating through a floating-point type: distinct ratings above 2^24 "
+                 "(f32) / 2^53 (f64) get the same score", {"witness": "identical titles with ratings 16777216 and 16777217 tie"})
+        return
     if p and p[2] == ["rating"]:
         ok = True
     elif x[0] == "call" and x[1].endswith("cmp::min"):
